@@ -415,7 +415,8 @@ theorem stage_gateway (h : Fam c ms A B T o fs) (down : Downstream) (i : String)
     intro hnil; apply hone; rw [← String.ofList_toList (s := o), hnil]
   obtain ⟨res, hex⟩ := stage_execute h down i ho1 ho2 hone' hine hg
   refine ⟨ScrubClean.cleanAll [([o], [(T, ["id"])])] res, ?_⟩
-  unfold gateway
+  rw [gateway_noVarDefs _ _ _ _ _ _ rfl]
+  unfold gatewayCore gatewayCoreWith
   simp only [stage_plan h, hex]
   rfl
 
